@@ -19,6 +19,7 @@ class C07(BaseCheck):
           'close-on-dead) and at the end a capacity probe issues max_watermark concurrent requests; in every other '
           'case the owner then closes the pool with connections lent out (nothing beyond min_watermark may exist '
           'once they have come back). '
+          'A connection on which a request timed out re-establishes itself for 0/50/300 ms and reports Busy meanwhile (being lent then is a violation); a max-waiters rejection is judged against live waiters plus timed-out waiters that no released usable connection has walked past yet. '
           'non-trivial = the queue was used or a connection was created beyond the first; distinct by '
           '(config, max queue depth bucket, #timed out while queued, death class, open mode)')
   ANCHORS = ('scales.pool.watermark:WatermarkPoolSink._Get', 'scales.pool.watermark:WatermarkPoolSink._Release',
@@ -59,6 +60,7 @@ class C07(BaseCheck):
     recover_delay = rng.choice([0.0, 0.0, 0.05, 0.3])
     sinks = []
     reqs = []
+    release_log = []
     step = [0]
     by_greenlet = {}
 
@@ -189,6 +191,13 @@ class C07(BaseCheck):
         # the completion travelled up through the pool: the connection it was
         # lent is released from the pool's point of view (reply, error or timeout)
         st = context['started']
+        if st is not None:
+          # a connection comes back to the pool: which live waiters are queued at this instant
+          # (only releases of a connection that can carry the next request at once: one that died or
+          # is busy re-establishing itself is replaced first, and the queue is walked later)
+          if not st[0].dead and not st[0].closed and not (isinstance(msg.error, ScalesTimeout) and recover_delay):
+            release_log.append((step[0], [x['queued_at'] for x in reqs if x.get('queued_at') is not None
+                                          and x['started'] is None and not x['deliveries']]))
         if st is not None and st[0].current is context:
           st[0].current = None
           st[0].released_idle = True
@@ -258,10 +267,21 @@ class C07(BaseCheck):
       elif req['deliveries'] and isinstance(req['deliveries'][0].error, MaxWaitersError):
         classes.add('max-waiters')
         out.obligations += 1
-        stale = len([r for r in reqs if r.get('queued_at') is not None and r['started'] is None and r['deliveries']])
+        # timed-out waiters keep their place until a released connection walks the queue past
+        # them: one whose timeout was followed (in an earlier, finished step) by a release that
+        # found no live waiter ahead of it has been skipped and no longer counts
+        stale = 0
+        for r in reqs:
+          if r.get('queued_at') is not None and r['started'] is None and r['deliveries'] and r.get('delivered_at'):
+            t_r = r['delivered_at'][0]
+            walked = any(t_r < s_ < step[0] and not any(x < r['queued_at'] for x in live_ids)
+                         for s_, live_ids in release_log)
+            if not walked:
+              stale += 1
         if pre_wait_live + stale < ql:
           viol('max-waiters:spurious', 'request %d rejected with MaxWaitersError with only %d waiting (+%d '
-               'timed out, not yet skipped), max_queue_len=%d' % (req['id'], pre_wait_live, stale, ql), {})
+               'timed out that no released connection has walked past yet), max_queue_len=%d' % (
+                 req['id'], pre_wait_live, stale, ql), {'live_waiting': pre_wait_live})
       return req
 
     def complete(s, how):
